@@ -136,13 +136,15 @@ def make_case(rng):
                 env[rng.randrange(n)] = -rng.randint(1, 2)
         case["env"], case["ncells"], case["nenv"] = env, n, nenv
     elif cls == "choice":
-        what = rng.choice(["boundary", "axis", "policy", "mode"])
+        what = rng.choice(["boundary", "axis", "policy", "mode", "lookup"])
+        # lookup: the policy of RDTrajectory.get_sample_index, whose documentation names exactly three values
         allowed = {"boundary": ["reflecting", "periodical"], "axis": ["x", "y", "z"], "policy": ["on_t_sample", "on_iteration", "on_interval", "no_sampling"],
-                   "mode": ["auto", "none", "Poisson", "redist"]}[what]
+                   "mode": ["auto", "none", "Poisson", "redist"], "lookup": ["closest", "supeq", "infeq"]}[what]
         wrong = {"boundary": ["periodic", "Reflecting", "", "None", "reflecting ", "periodical,reflecting", "reflect"],
                  "axis": ["w", "X", "", "xy", "yz", "xyz", "xz", "x ", "0", "xx"],
                  "policy": ["on_sample", "never", "", "None", "on_t_sample ", "on_iteration,on_interval", "on", "sampling"],
-                 "mode": ["floor", "poisson", "", "None", "Auto", "redist ", "no", "non"]}[what]
+                 "mode": ["floor", "poisson", "", "None", "Auto", "redist ", "no", "non"],
+                 "lookup": ["sup", "inf", "nearest", "", "closest ", "Supeq", "eq", "supeq,infeq"]}[what]
         val = rng.choice(wrong) if faulty else rng.choice(allowed)
         case.update({"what": what, "allowed": allowed, "value": val})
     elif cls == "env_names":
@@ -235,6 +237,13 @@ def observe(case):
         system = strengths.RDSystem(network=strengths.RDNetwork(species=[strengths.Species("A")], reactions=[]))
         if what == "policy":
             return run(lambda: strengths.RDScript(system=system, t_sample=[0, 1], sampling_policy=val))
+        if what == "lookup":
+            import strengths.rdoutput as ro
+            U = strengths.units
+            script = strengths.RDScript(system=system, t_sample=[0, 1])
+            tr = ro.RDTrajectory(data=U.UnitArray([1.0, 2.0, 3.0], "molecule"), t_sample=U.UnitArray([0.0, 1.0, 2.0], "s"), system=system, script=script,
+                                 engine_description="", engine_option="euler")
+            return run(lambda: tr.get_sample_index("1 s", val))
         return run(lambda: strengths.RDScript(system=system, t_sample=[0, 1], init_state_processing=val))
     if cls == "env_names":
         return run(lambda: strengths.RDNetwork(species=[strengths.Species("A")], reactions=[], environments=list(case["names"])))
